@@ -564,3 +564,149 @@ func valueText(v ssa.Value) string {
 	}
 	return "<computed>"
 }
+
+// RunPrinterKeywords: every lower-case word the printer writes as a token of
+// its own (a keyword: class, mark, base, first, second, to, flag names) is a
+// word the parser knows: it occurs as a string constant in a function
+// reachable from Parse. A keyword renamed on one side only makes every
+// description that contains it unparsable.
+func RunPrinterKeywords(w *World, r *Report, entries []string, parse string) {
+	r.Rule("keywords: every lower-case word that occurs in a string constant the printer writes (a constant operand of a write, a format string, or a string constant handed to a printer function; text after '#' is a comment) occurs as a string constant in a function of the package reachable from Parse: printer and parser agree on the keywords of the language")
+	var es []*ssa.Function
+	for _, e := range entries {
+		fn := w.Func(e)
+		if fn == nil {
+			r.Fatal("anchor %s does not resolve", e)
+			return
+		}
+		es = append(es, fn)
+	}
+	pf := w.Func(parse)
+	if pf == nil {
+		r.Fatal("anchor %s does not resolve", parse)
+		return
+	}
+	ts := &tokenSep{w: w, fns: map[*ssa.Function]bool{}}
+	for _, fn := range srcFuncsReachable(w, es) {
+		if fnPkgPath(fn) == builderPkg {
+			ts.fns[fn] = true
+			for _, a := range fn.AnonFuncs {
+				ts.fns[a] = true
+			}
+		}
+	}
+	known := map[string]bool{}
+	for _, fn := range srcFuncsReachable(w, []*ssa.Function{pf}) {
+		if fnPkgPath(fn) != builderPkg {
+			continue
+		}
+		fs := append([]*ssa.Function{fn}, fn.AnonFuncs...)
+		for _, f := range fs {
+			for _, b := range f.Blocks {
+				for _, in := range b.Instrs {
+					for _, op := range in.Operands(nil) {
+						if c, ok := (*op).(*ssa.Const); ok && c.Value != nil && c.Value.Kind() == constant.String {
+							known[constant.StringVal(c.Value)] = true
+						}
+					}
+				}
+			}
+		}
+	}
+	type occ struct {
+		pos  string
+		word string
+		fn   string
+	}
+	var occs []occ
+	seenWord := map[string]bool{}
+	addConst := func(fn *ssa.Function, ins ssa.Instruction, s string, isFormat bool) {
+		if i := strings.IndexByte(s, '#'); i >= 0 {
+			s = s[:i]
+		}
+		if isFormat {
+			// drop the verbs
+			var sb strings.Builder
+			for i := 0; i < len(s); i++ {
+				if s[i] == '%' {
+					j := i + 1
+					for j < len(s) && strings.ContainsRune("+-# 0123456789.*[]", rune(s[j])) {
+						j++
+					}
+					sb.WriteByte(' ')
+					i = j
+					continue
+				}
+				sb.WriteByte(s[i])
+			}
+			s = sb.String()
+		}
+		word := ""
+		flush := func() {
+			if len(word) >= 2 && !seenWord[word] {
+				seenWord[word] = true
+				occs = append(occs, occ{w.Pos(ins.Pos()), word, fnName(fn)})
+			}
+			word = ""
+		}
+		prev := rune(0)
+		for _, c := range s {
+			if c >= 'a' && c <= 'z' {
+				if word == "" && (unicode.IsLetter(prev) || unicode.IsDigit(prev)) {
+					// continues a token that did not start in lower case (GSUB1, c1): not a keyword
+					prev = c
+					continue
+				}
+				word += string(c)
+			} else {
+				if unicode.IsLetter(c) || unicode.IsDigit(c) {
+					word = "" // mixed token
+				} else {
+					flush()
+				}
+			}
+			prev = c
+		}
+		flush()
+	}
+	var fns []*ssa.Function
+	for fn := range ts.fns {
+		fns = append(fns, fn)
+	}
+	sort.Slice(fns, func(i, j int) bool { return fns[i].Pos() < fns[j].Pos() })
+	for _, fn := range fns {
+		for _, b := range fn.Blocks {
+			for _, ins := range b.Instrs {
+				call, ok := ins.(*ssa.Call)
+				if !ok {
+					continue
+				}
+				if _, isW := ts.writeOf(ins); isW {
+					c := call.Common()
+					for i, a := range c.Args {
+						if k, ok := a.(*ssa.Const); ok && k.Value != nil && k.Value.Kind() == constant.String {
+							callee := c.StaticCallee()
+							addConst(fn, ins, constant.StringVal(k.Value), callee != nil && callee.Name() == "Fprintf" && i == 1)
+						}
+					}
+					continue
+				}
+				if callee := call.Common().StaticCallee(); callee != nil && ts.fns[callee] {
+					for _, a := range call.Common().Args {
+						if k, ok := a.(*ssa.Const); ok && k.Value != nil && k.Value.Kind() == constant.String {
+							addConst(fn, ins, constant.StringVal(k.Value), false)
+						}
+					}
+				}
+			}
+		}
+	}
+	for _, o := range occs {
+		key := r.MkKey("keywords", o.fn, "word "+o.word)
+		if known[o.word] {
+			r.OK("keywords", key, o.pos, "the parser has the same word as a string constant")
+		} else {
+			r.Fail("keywords", key, o.pos, fmt.Sprintf("the printer writes the word %q, which is no string constant of the parser: a description containing it does not parse back", o.word), nil)
+		}
+	}
+}
